@@ -118,9 +118,29 @@ def r1_iterator_progress(ctx, F):
         raise AnchorMissing('expected >= 4 Iterator impls in the crate, found %d' % n)
 
 
-def names(calls):
-    return Counter(c.short.split('::')[-2] + '::' + c.short.split('::')[-1] if '::' in c.short else c.short
-                   for c in calls)
+def names(calls, F=None, depth=0):
+    """multiset of callee names; calls to local (crate) helper functions are replaced by the calls
+    of the helper's body (two levels), so extracting a helper on one side keeps siblings equal"""
+    out = Counter()
+    for c in calls:
+        hb = F.bodies.get(c.callee) if (F is not None and c.local and depth < 2) else None
+        if hb is not None and hb.kind != 'Closure' and not hb.path.startswith('<'):
+            inner = [x for y in [hb] + F.closures_under(hb) for x in y.calls if not x.exp]
+            out += names(inner, F, depth + 1)
+            continue
+        out[c.short.split('::')[-2] + '::' + c.short.split('::')[-1] if '::' in c.short else c.short] += 1
+    return out
+
+
+def effective_regions(F, fn, blocks):
+    """(body, blocks) pairs to search: the arm itself plus the bodies of local helpers it calls"""
+    out = [(fn, blocks)]
+    for c in fn.calls:
+        if c.bb in blocks and c.local:
+            hb = F.bodies.get(c.callee)
+            if hb is not None and hb.kind != 'Closure' and not hb.path.startswith('<'):
+                out.append((hb, hb.live_blocks()))
+    return out
 
 
 def r2_effect_kinds(ctx, F):
@@ -150,7 +170,7 @@ def r2_effect_kinds(ctx, F):
     for v in ('UnorderedNonDuplicating', 'Ordered'):
         a, _ = arm_calls(F, dl, sdl, v)
         b_, _ = arm_calls(F, dr, sdr, v)
-        na, nb = names(a), names(b_)
+        na, nb = names(a, F), names(b_, F)
         ctx.check(na == nb, rule, 'deliver-equals-drop-%s' % v, dl,
                   good='on_deliver and on_drop perform the same removal on %s (%d calls)' % (v, sum(na.values())),
                   bad='Network::on_deliver and Network::on_drop differ on %s: only-in-deliver %s, '
@@ -158,26 +178,38 @@ def r2_effect_kinds(ctx, F):
                       (v, dict(na - nb), dict(nb - na)))
     # non-duplicating removal: remove the entry when the count is 1, otherwise decrement by 1
     for (fn, sw_) in ((dl, sdl), (dr, sdr)):
-        cs, blocks = arm_calls(F, fn, sw_, 'UnorderedNonDuplicating')
-        rmv = [c for c in cs if c.is_('OccupiedEntry::remove', 'OccupiedEntry::remove_entry')]
-        dec = []
-        for (i, si, st) in fn.assigns(lambda st: st['rv']['k'] == 'bin' and st['rv']['op'] in ('SubWithOverflow', 'Sub')):
-            if i in blocks:
-                one = fn.val(st['rv']['b'])
-                if one.kind == 'const' and one.key == 1:
-                    dec.append(i)
-        eq1 = False
-        for sw in fn.switches:
-            if sw.bb in blocks and sw.on.kind == 'bin' and sw.on.key[0] == 'Eq':
-                ops = sw.on.key[1:]
-                if any(o.kind == 'const' and o.key == 1 for o in ops):
-                    te = sw.edges_for(True)
-                    if rmv and te and fn.edges_dominate(te, rmv[0].bb, frm=[sw.bb]):
-                        eq1 = True
+        cs0, blocks0 = arm_calls(F, fn, sw_, 'UnorderedNonDuplicating')
+        rmv, dec, eq1 = [], [], False
+        for (g, blocks) in effective_regions(F, fn, blocks0):
+            rm_g = [c for c in g.calls if c.bb in blocks and c.is_('OccupiedEntry::remove', 'OccupiedEntry::remove_entry')]
+            rmv += rm_g
+            for (i, si, st) in g.assigns(lambda st: st['rv']['k'] == 'bin' and st['rv']['op'] in ('SubWithOverflow', 'Sub')):
+                if i in blocks:
+                    one = g.val(st['rv']['b'])
+                    if one.kind == 'const' and one.key == 1:
+                        # the decremented value must be written back into the map entry
+                        wb = False
+                        for (j, sj, st2) in g.assigns(lambda st2: st2['lhs']['p'] == ['deref']):
+                            if j in blocks:
+                                src = g.val(st2['rv']['op']) if st2['rv']['k'] == 'use' else None
+                                tgt = g.place_val({'l': st2['lhs']['l'], 'p': []})
+                                tc = g.call_at(tgt.key) if tgt.kind == 'call' else None
+                                if src is not None and src.kind == 'bin' and tc is not None and \
+                                        tc.is_('OccupiedEntry::get_mut', 'HashMap::get_mut', 'OccupiedEntry::into_mut'):
+                                    wb = True
+                        if wb:
+                            dec.append(i)
+            for sw in g.switches:
+                if sw.bb in blocks and sw.on.kind == 'bin' and sw.on.key[0] == 'Eq':
+                    ops = sw.on.key[1:]
+                    if any(o.kind == 'const' and o.key == 1 for o in ops):
+                        te = sw.edges_for(True)
+                        if rm_g and te and g.edges_dominate(te, rm_g[0].bb, frm=[sw.bb]):
+                            eq1 = True
         ctx.check(len(rmv) == 1 and len(dec) == 1 and eq1, rule, 'nondup-removes-one-copy@%s' % fn.path.split('::')[-1], fn,
                   good='one copy is removed: entry dropped at count 1, otherwise count - 1',
                   bad='%s on UnorderedNonDuplicating does not remove exactly one copy (entry removal when '
-                      'count == 1: %s, decrement by one: %d site(s))' % (fn.path, eq1, len(dec)))
+                      'count == 1: %s, decrement by one written back to the entry: %d site(s))' % (fn.path, eq1, len(dec)))
     # send on non-duplicating increments
     cs, blocks = arm_calls(F, sd, ssd, 'UnorderedNonDuplicating')
     inc = []
